@@ -3,7 +3,7 @@
 # (never to /repo itself), runs the quick check of the property on the copy and prints the verdict.
 id=$1; prop=${2:-${id%%_*}}
 S=$(mktemp -d /tmp/seedscr.XXXXXX); V=$(mktemp -d /tmp/seedscrv.XXXXXX)
-rsync -a --exclude .git --exclude cmd/participle/participle /repo/ $S/
+rsync -a --exclude .git --exclude cmd/participle/participle ${BASE:-/repo}/ $S/
 if ! (cd $S && patch -p1 -s < /verif/seeded/$id/patch.diff >/dev/null 2>&1); then echo "$id DOES-NOT-APPLY"; rm -rf $S $V; exit 3; fi
 mkdir -p $V/evidence; cp -r /verif/stubs /verif/bounded /verif/known_findings.json $V/
 lv=proof; case $prop in C08|C14|C16) lv=exploration;; C09) lv=other;; esac
